@@ -8,6 +8,11 @@
 (*           distinct codewords are damaged and the flipped modules are exactly those of the damage.              *)
 (*   img   : the same, rendered (rotation 0..3 quarter turns, 2..5 pixels per module) and read by AztecReader.    *)
 (*   hl    : a script's bit stream given to decoder.HighLevelDecode.  PREMISE: bits = ScriptBits(items).          *)
+(*   tmpl  : the function patterns of a (compact, layers) symbol with an empty mode ring.  PREMISE: the logged      *)
+(*           matrix carries exactly FunctionDark on the function modules.                                           *)
+(*   det   : the template with a mode message and arbitrary data modules, rendered and given to detector.Detect.    *)
+(*           PREMISE: the dark mode-ring cells are those of ModeBits(c, layers, nd) and nd leaves >= 3 check words. *)
+(*           VERDICT: the detector announces exactly (compact, layers, nd).                                         *)
 (* VERDICT for all: no panic, no error, and the text equals the script's text (for hl also: equals what the       *)
 (* spec's decode automaton reads from the logged bits).  Rejected events go to `bad` as <<index, op, tag>> with   *)
 (* tag "premise" (the input was not what the spec prescribes: plumbing problem) or "decode" (the real code).     *)
@@ -15,7 +20,7 @@ EXTENDS Aztec, TraceLib
 CONSTANTS ParityMaxWs
 VARIABLES l, bad, cur
 vars == <<l, bad, cur>>
-NoSym == [ok |-> FALSE, c |-> 0, layers |-> 0, ws |-> 0, ncw |-> 0, nd |-> 0, text |-> <<>>, spiral |-> <<>>]
+NoSym == [ok |-> FALSE, det |-> FALSE, c |-> 0, layers |-> 0, ws |-> 0, ncw |-> 0, nd |-> 0, text |-> <<>>, spiral |-> <<>>]
 Init == l = 1 /\ bad = <<>> /\ cur = NoSym
 
 IsNatSeq(s, hi) == DOMAIN s = 1..Len(s) /\ \A i \in 1..Len(s) : s[i] \in 0..hi
@@ -57,7 +62,7 @@ Next ==
                  IF ~sc.ok THEN bad' = Reject(e, "premise") /\ cur' = NoSym
                  ELSE \E dw \in {Stuff(sc.bits, WordSize(e.layers))}, sp \in {Spiral(e.c, e.layers)} :
                       IF ~SymMatches(e, sc, dw, sp) THEN bad' = Reject(e, "premise") /\ cur' = NoSym
-                      ELSE /\ cur' = [ok |-> TRUE, c |-> e.c, layers |-> e.layers, ws |-> WordSize(e.layers),
+                      ELSE /\ cur' = [ok |-> TRUE, det |-> FALSE, c |-> e.c, layers |-> e.layers, ws |-> WordSize(e.layers),
                                       ncw |-> NumCodewords(e.c, e.layers), nd |-> Len(dw), text |-> sc.text, spiral |-> sp]
                            /\ bad' = IF Decoded(e, sc.text) THEN bad ELSE Reject(e, "decode")
        [] e.op \in {"mat", "img"} ->
@@ -72,6 +77,26 @@ Next ==
                     IF ~(sc.ok /\ e.nbits = Len(sc.bits) /\ e.bits = Chunks(sc.bits)) THEN bad' = Reject(e, "premise")
                     ELSE bad' = IF Decoded(e, sc.text) /\ e.txt = DecodeBits(UnChunks(e.bits, e.nbits)) THEN bad
                                 ELSE Reject(e, "decode")
+       [] e.op = "tmpl" ->
+            IF ~(e.c \in {0, 1} /\ e.layers \in 1..(IF e.c = 1 THEN 4 ELSE 32) /\ DOMAIN e.rows = 1..Size(e.c, e.layers)
+                 /\ \A y \in 1..Size(e.c, e.layers) : IsNatSeq(e.rows[y], 65535) /\ Len(e.rows[y]) = NChunks(Size(e.c, e.layers)))
+            THEN bad' = Reject(e, "premise") /\ cur' = NoSym
+            ELSE LET sz == Size(e.c, e.layers) IN
+                 \E lg \in {[y \in 1..sz |-> UnChunks(e.rows[y], sz)]} :
+                   IF \A x \in 0..sz-1, y \in 0..sz-1 :
+                        lg[y+1][x+1] = (IF IsFunction(e.c, e.layers, x, y) /\ FunctionDark(e.c, e.layers, {}, x, y) THEN 1 ELSE 0)
+                   THEN bad' = bad /\ cur' = [NoSym EXCEPT !.det = TRUE, !.c = e.c, !.layers = e.layers,
+                                                          !.ncw = NumCodewords(e.c, e.layers)]
+                   ELSE bad' = Reject(e, "premise") /\ cur' = NoSym
+       [] e.op = "det" ->
+            /\ cur' = cur
+            /\ IF ~(cur.det /\ e.nd \in 1..Min2(cur.ncw - 3, IF cur.c = 1 THEN 64 ELSE 2048)
+                    /\ e.rot \in 0..3 /\ e.scale \in 2..5 /\ e.quiet >= 1)
+               THEN bad' = Reject(e, "premise")
+               ELSE \E mb \in {ModeBits(cur.c, cur.layers, e.nd)} :
+                    IF e.flips # Cat([q \in 1..4*ModeLen(cur.c) |-> IF mb[q] = 1 THEN << ModeCell(cur.c, cur.layers, q-1) >> ELSE <<>>])
+                    THEN bad' = Reject(e, "premise")
+                    ELSE bad' = IF e.panic = 0 /\ e.err = 0 /\ e.txt = <<cur.c, cur.layers, e.nd>> THEN bad ELSE Reject(e, "decode")
        [] OTHER -> bad' = Reject(e, "premise") /\ cur' = cur
 Spec == Init /\ [][Next]_vars
 Done == l = NEv + 1 => WriteBad(l, bad)
